@@ -408,6 +408,20 @@ def _perturbations(a, b):
         y = copy.deepcopy(a)
         y[k] = copy.deepcopy(b[k])
         yield y
+        # a smaller version of the same argument (one entry of a dict / list dropped): what an
+        # earlier, larger call left behind then shows.  Independence of earlier calls must hold
+        # for every input, inside or outside the domain of the functional contract.
+        if isinstance(a[k], dict) and len(a[k]) > 1:
+            y = copy.deepcopy(a)
+            y[k].pop(next(iter(y[k])))
+            yield y
+            y = copy.deepcopy(a)
+            y[k].pop(list(y[k])[-1])
+            yield y
+        elif isinstance(a[k], list) and len(a[k]) > 1:
+            y = copy.deepcopy(a)
+            y[k].pop()
+            yield y
     yield copy.deepcopy(b)
 
 
